@@ -132,6 +132,13 @@ func runC04(c *sim.Ctx, t *testing.T) {
 	sim.Install(c)
 	defer sim.Uninstall()
 	cfg := genCfg{native: true, failOps: true, nullRet: true, permanents: true, badBranch: true, unknownNode: true, guards: true, guardEmits: true, loops: true, maxNodes: 5, multiCand: true, errorNode: true, varStrings: true, sameStub: true, globals: true, noop: true}
+	// Fault: the host's context has ended before the step.  Only with programs whose actions
+	// are all native (they ignore the context, so every rule applies unchanged - in
+	// particular a failing action is still routed by the spec's error settings).
+	deadCtx := c.Chance(1, 6, "deadctx")
+	if deadCtx {
+		cfg.nativeOnly = true
+	}
 	gs := genSpec(c, cfg)
 	spec, err := compile(gs)
 	if err != nil {
@@ -139,6 +146,12 @@ func runC04(c *sim.Ctx, t *testing.T) {
 		return
 	}
 	ctx := context.Background()
+	if deadCtx {
+		dead, cancel := context.WithCancel(ctx)
+		cancel()
+		ctx = dead
+		c.Count("runs_with_a_cancelled_context")
+	}
 	ntrials := 4 + c.Intn(8, "ntrials")
 	paths := ""
 	interesting := 0
@@ -163,7 +176,7 @@ func runC04(c *sim.Ctx, t *testing.T) {
 					if genExt {
 						ints = interpretersExt
 					}
-					if err := spec.Compile(ctx, ints, true); err != nil {
+					if err := spec.Compile(context.Background(), ints, true); err != nil {
 						c.Infra = "edited spec does not compile: " + err.Error()
 						return
 					}
